@@ -9,6 +9,7 @@ from collections import Counter
 
 from .. import history as H
 from ..common import cedge, dc, dedupe, permuted
+from ..common import nodes_with_metadata
 from ..engine import Clause, Violation, require
 
 ASSUMPTIONS = [
@@ -141,10 +142,10 @@ def observe(h, U, probes, real):
             deg[n][("size", k)] = h.degree(n, size=k)
             deg[n][("order", k - 1)] = h.degree(n, order=k - 1)
             mdeg[n][("size", k)] = m_degree(h, n, size=k)
-        nmeta[n] = dc(h.get_nodes(metadata=True)[n])
+        nmeta[n] = dc(nodes_with_metadata(h)[n])
     o["get_incident_edges"], o["degree"], o["measures.degree"] = inc, deg, mdeg
     o["node_meta"] = nmeta
-    o["nodes_meta"] = {k: dc(v) for k, v in h.get_nodes(metadata=True).items()}
+    o["nodes_meta"] = {k: dc(v) for k, v in nodes_with_metadata(h).items()}
     o["degree_sequence"] = {None: dict(h.degree_sequence())}
     o["measures.degree_sequence"] = dict(m_dseq(h))
     for k in SIZES:
@@ -267,10 +268,11 @@ class MultiplexAdapter(H.Adapter):
                 lambda: "aggregated_hypergraph(): nodes %r, expected %r"
                 % (sorted(agg.get_nodes(), key=repr), sorted(model.nodes, key=repr)),
                 key="aggregate-nodes")
-        for n, meta in model.nodes.items():
-            require(agg.get_node_metadata(n) == meta,
-                    lambda: "aggregated_hypergraph(): metadata of node %r is %r, expected %r"
-                    % (n, agg.get_node_metadata(n), meta), key="aggregate-node-metadata")
+        # (node metadata of the aggregated hypergraph: not claimed -- 'has the same nodes')
+        require(agg.is_weighted() == model.weighted,
+                lambda: "aggregated_hypergraph().is_weighted() = %r for a multiplex hypergraph "
+                        "with weighted=%r" % (agg.is_weighted(), model.weighted),
+                key="aggregate-weighted")
         # overlap: present node sets, and an absent one
         for e in list(want)[:6]:
             ov = edge_overlap(h, tuple(reversed(e)))
